@@ -167,7 +167,10 @@ class HeapExec(Exec):
                       "enumerate", "max", "super", "next", "zip"):
             yield p, V("builtin", name)
         else:
-            raise Unsupported("global name %s" % name)
+            h = self.find_helper(name)
+            if h is None:
+                raise Unsupported("global name %s" % name)
+            yield p, V("helper", h)
 
     def truth(self, v, p, e=None):
         if v.k == "listref":
@@ -454,6 +457,10 @@ class HeapExec(Exec):
                     yield from self.builtin(fv.t, e, q)
                 elif fv.k == "class":
                     yield from self.construct(fv.t, e, q)
+                elif fv.k == "helper":
+                    kwn = [k.arg for k in e.keywords]
+                    for q2, vs in self.evs(list(e.args) + [k.value for k in e.keywords], q):
+                        yield from self.inline_call(fv.t, vs[:len(e.args)], dict(zip(kwn, vs[len(e.args):])), q2, list(e.args))
                 else:
                     raise Unsupported("call of %r" % fv)
             return
@@ -463,7 +470,12 @@ class HeapExec(Exec):
                     and f.value.id not in p.env:
                 spec = self.fam.specs.get((self.mangle(f.attr), "static"))
                 if spec is None:
-                    raise Unsupported("static call %s" % ast.unparse(f))
+                    h = self.find_helper(f.attr, self.fam.cls, "static")
+                    if h is None:
+                        raise Unsupported("static call %s" % ast.unparse(f))
+                    for q, vs in self.evs(e.args, p):
+                        yield from self.inline_call(h, vs, {}, q, list(e.args))
+                    return
                 for q, vs in self.evs(e.args, p):
                     args = {n: v for (n, _), v in zip(spec.params, vs)}
                     yield from self.apply_spec(spec, q, args, "call:" + f.attr)
@@ -511,8 +523,18 @@ class HeapExec(Exec):
                 if vs[0].k != "id":
                     raise Unsupported("set.add of %r" % vs[0])
                 q.env[v.func.value.id] = V("idset", Store(q.env[v.func.value.id].t, vs[0].t, True))
+                self.mark_inplace(q, v.func.value.id)
                 out.append(q)
             return out
+        # xs.reverse() on a local holding a list value made by list(...) (fresh, never aliased in the subset): functional update
+        if (isinstance(v, ast.Call) and isinstance(v.func, ast.Attribute) and v.func.attr == "reverse" and not v.args and not v.keywords
+                and isinstance(v.func.value, ast.Name) and v.func.value.id in p.env and p.env[v.func.value.id].k == "aseq"):
+            nm = v.func.value.id
+            if sum(1 for w in p.env.values() if w is p.env[nm]) != 1:
+                raise Unsupported("in-place reverse of a list that another local refers to")
+            p.env[nm] = V("aseq", self.reverse(self.seq_of(p.env[nm], p), p))
+            self.mark_inplace(p, nm)
+            return [p]
         return Exec.s_Expr(self, st, p)
 
     def fresh_of_kind(self, kind, name):
@@ -887,13 +909,22 @@ def verify_spec(spec):
         formal = formal + ["**" + fi.node.args.kwarg.arg]
     rename = {}
     if [n for n, _ in spec.params] != formal:
-        private = fi.name.startswith("__") and not fi.name.endswith("__")
+        private = fi.name.startswith("_") and not fi.name.endswith("__")
+        cand = {a: b for (a, _), b in zip(spec.params, formal) if a != b} if len(formal) == len(spec.params) else {}
+        if private and not fi.name.startswith("__"):
+            # a protected (single underscore) helper: renaming is invisible only if no caller in the package passes the
+            # renamed parameters by keyword
+            used = frontend.keyword_call_sites(fi.name)
+            private = not (used & (set(cand) | set(cand.values())))
         if private and len(formal) == len(spec.params) and all(a.startswith("*") == b.startswith("*") for (a, _), b in zip(spec.params, formal)):
-            # a name-mangled helper's parameter names are not part of any interface: bind the contract's names positionally
-            rename = {a: b for (a, _), b in zip(spec.params, formal) if a != b}
+            # a private helper's parameter names are not part of any interface: bind the contract's names positionally
+            rename = cand
         else:
             return fi, [], [StructFailure(fi.ident, "parameters %s differ from the contract's %s"
                                           % (formal, [n for n, _ in spec.params]))]
+    if rename:
+        # sidecar invariants name the parameters as the contract does
+        ex._alias = {a.lstrip("*"): b.lstrip("*") for a, b in rename.items()}
     args = {n: world.make_arg(n, k) for n, k in spec.params}
     ctx = Ctx(spec, S0, args)
     ex.fnctx = ctx
